@@ -15,6 +15,18 @@ CHECKS = {
         ref="4 C07", technique="Lean 4 theorems over R (Mathlib) on a hand-written model + Float-instance differential correspondence against the real code"),
 }
 
+CHECKS.update({
+    "C04": dict(
+        text="Proved in Lean for all inputs: on every table meeting CdfTableOK the sampler returns z with F(z)=u on the unique bracket (plateaux included), z inside the tabulated range (<=1, so E_tau<=E_nu), non-decreasing in u; the wrapper clamps low angles to the minimum-angle distribution, gives 2^-23*E_nu above the maximum angle and rejects out-of-range energies. Each of the three shipped tables is shown to meet CdfTableOK by kernel evaluation (decide +kernel, SWAR tests lifted by lemma) over Gen/Tab*.lean regenerated from /repo every run. The model is tied to cdf.py/interp.py/taus.py by running grid_cdf_sampler and Taus.tau_energy (explicit u and internal generator) against the same model at Float. Observed only: scipy interpn = the bilinear model; explicit-u = internal-generator equality (differential on the real code).",
+        ref="4 C04", technique="Lean 4 theorems (inverse transform on monotone rows, convexity of bilinear rows) + kernel-checked data theorems over regenerated tables + Float-model correspondence"),
+    "C05": dict(
+        text="Proved in Lean for all inputs and all call histories: the exit-probability state machine (table floored in place by each call) returns, for every history of earlier calls, the value a fresh object returns (floor idempotent); inside the table the value is 10^(bilinear of log10 of the floored table), lies between any bounds of the four surrounding floored nodes, is in (0,1] (uses the kernel-checked fact that all shipped entries are in [0,1]), reproduces floored nodes exactly, clamps low angles, returns the 2^-23 floor above the maximum angle and rejects out-of-range energies. Tied to taus.py by running Taus.tau_exit_prob on fresh objects and after random histories against the model at Float and against the raw HDF5 content. Observed only: scipy RegularGridInterpolator = the bilinear model.",
+        ref="4 C05", technique="Lean 4 theorems on a state-machine model (history independence by induction) + kernel-checked data theorems + Float-model correspondence"),
+    "C18": dict(
+        text="Proved in Lean: every node of every shipped table meets the samplers' preconditions (axes strictly increasing, CDF rows non-decreasing from 0 to 1 within 2^-50, exit probabilities <= 1) by kernel evaluation over the regenerated tables; slicing at an arbitrary coordinate is the linear blend of the neighbouring sub-grids and exact at nodes; the mask/shift/xor row interpolation equals ordinary piecewise-linear interpolation on every non-decreasing row with plateaux. PARTIAL: the HDF5/FITS round trip is third-party I/O and is explored on the real NssGrid.write/read (random grids, 1-4 dims, dtypes, names), not proved; 'smallest reachable tau energy above the tau mass' is checked numerically on the shipped tables each run, not yet proved.",
+        ref="4 C18", technique="Lean 4 kernel-checked data theorems over regenerated tables + theorems on the interpolation model + exploration of the real file I/O"),
+})
+
 NOT_APPLICABLE = {}
 
 ALL = [f"C{i:02d}" for i in range(1, 21)]
